@@ -410,3 +410,10 @@ def run(ctx: core.Ctx) -> None:
     else:
         replay_machine(ctx, results["machine"], depth, variants=[0, 1])
         trace_validation(ctx, per_curve=1920, ncalls=8)
+
+    # per-call statement of the property under concurrent use (Reentrant.tla): the same calls from several threads at once
+    from ..drivers import threads  # noqa: PLC0415
+
+    threads.clause(ctx, ['forecasts'])
+
+
